@@ -10,6 +10,21 @@ REPLAY = {"*": "c25.replay_sendall"}
 def setup(E):
     channel.declare_c19(E)          # _wait_for_send_window with its monitor contract incl. the exit_when progress obligation
     channel.declare_c25(E)
+    # a sender parked on an exhausted window is released by a close only if the close wakes it: _set_closed (own body) marks the
+    # channel closed and broadcasts on the window condition - waking one waiter would leave every other parked sendall asleep
+    E2 = type(E)()
+    channel.declare_c22(E2)
+    E2.declare_ghost(broadcasts="int")
+    qn = C + "_set_closed"
+    global TARGETS
+    TARGETS = [t for t in TARGETS if not (isinstance(t, tuple) and t[1] == "wakes-every-parked-sender")]
+    TARGETS.append((qn, "wakes-every-parked-sender", dict(E2.contracts[qn], **{
+        "ensures": dict(E2.contracts[qn]["ensures"],
+                        every_parked_sender_is_woken="ghost('broadcasts') == old(ghost('broadcasts')) + 1"),
+        "+replace": True, "+contracts": {k: v for k, v in E2.contracts.items() if k != qn},
+        "+fields": {k: dict(d["fields"]) for k, d in E2.classdecl.items()},
+        "+engine": {"monitors": E2.monitors, "ghost_types": dict(E2.ghost_types),
+                    "inline_ok": set(E2.inline_ok)}})))
 
 CLAIMED = True
 LEVEL_TEXT = ("Proof with loop invariant and variant on the real sendall / sendall_stderr loops: ghost 'delivered' (the bytes "
@@ -17,7 +32,9 @@ LEVEL_TEXT = ("Proof with loop invariant and variant on the real sendall / senda
               "length strictly decreases, and a normal return implies delivered == everything; the only other outcomes are "
               "the documented exceptions. send() is used by contract (0 <= sent <= len, may be 0 when closed/EOF). A timeout bounds the whole wait for window: every Condition.wait in _wait_for_send_window is given no more "
               "than what is left of self.timeout (ghost time budget consumed by each wait, obligation raised at the wait), so a "
-              "waiter woken again and again without the window opening still times out.")
+              "waiter woken again and again without the window opening still times out. Channel._set_closed (own body) marks the "
+              "channel closed and wakes EVERY sender parked on the window condition (ghost broadcast counter; notify() of one "
+              "waiter does not count), so several parked sendall calls all come back when the channel closes.")
 LEVEL_NOTE = ("The wait loop inside _wait_for_send_window carries a progress obligation (an iteration that starts with the "
               "channel closed or EOF sent must leave the loop), so a parked sender is released by close(). send()/send_stderr() are assumed here to satisfy their contract (their window arithmetic is verified under C19 "
               "through _send/_wait_for_send_window); timeouts are raised by the callee. Thread interleavings only enter through "
